@@ -20,7 +20,7 @@ def _sig_operand(typ, ops):
 def check_effects(case):
     nl, spec = case['nl'], case['spec']
     c = build.build(nl, case['route'])
-    res = simp.apply_spec(spec, c, reuse=bool(case.get('reuse_instance')))
+    res = simp.apply_spec(spec, c, reuse=bool(case.get('reuse_instance')), hand=case.get('hand', 'list'))
     atoms = simp.atoms_of(spec)
     # pipelines equal sequencing of the constituent passes
     seq = c
@@ -33,6 +33,8 @@ def check_effects(case):
     cls = simp.spec_classes(spec)
     if case.get('reuse_instance'):
         cls.add('pass_object_reused')
+    if spec[0] == 'list':
+        cls.add('list_as:' + case.get('hand', 'list'))
     typ = {g[0]: g[1] for g in nl['gates']}
     changed = False
     if len(atoms) == 1 and spec[0] != 'cleanup':
